@@ -543,6 +543,18 @@ def plain_parsers(run, m, F, floats=False):
         direct = [c for c in callees if c in STRTO.values()]
         deleg = [c.split('::')[-1] for c in callees if c.startswith('ST::string::to_')]
         ok = direct == [want] or (not direct and len(deleg) == 1 and STRTO.get(deleg[0]) == want)
+        if not ok:
+            # through private helpers: what matters is which strto* primitives the member can reach at all
+            reach = set(m.dem(t).split('(')[0] for t in F.reachable_from([name]) if t != name)
+            prims = sorted(r for r in reach if r in STRTO.values())
+            if prims == [want]:
+                run.ob('R12.4', short(f.dem), True, 'reaches %s only (through %s)' % (want, ', '.join(sorted(c.split('::')[-1] for c in callees if c.startswith('ST::string::'))[:2]) or 'helpers'),
+                       disc='plain', loc=fn_loc(f))
+                continue
+            if want in prims or not prims:
+                run.ob('R12.4', short(f.dem), None, 'does not call %s directly; reaches %s: not decided which one parses this member\'s text' % (want, prims or 'no strto* primitive'),
+                       disc='plain', loc=fn_loc(f))
+                continue
         run.ob('R12.4', short(f.dem), ok, 'parses with %s' % want if ok else 'expected %s on c_str(), found %s' % (want, direct + deleg), disc='plain', loc=fn_loc(f))
     return n
 
